@@ -278,6 +278,9 @@ KNOBS = ["npos", "next", "nun", "unit", "dimunit", "noref", "rows", "ref2unit"]
 
 def _recipe(rank, budget, multi, i1, v1, s1, i2, v2, s2):
     """consistent base + at most `budget` injections -> recipe dict"""
+    if isinstance(budget, tuple):          # thorough: (2, first knob) - partitioned by the first knob
+        budget, first = budget
+        assume(i1 == first)
     r = {"npos": rank, "next": rank, "nun": rank, "slot": 0, "uv": 0, "dslot": 0, "dv": 1,
          "has_ref": True, "rows": False, "d2slot": 0, "d2v": 1}
     inj = [(i1, v1, s1)]
@@ -449,12 +452,14 @@ OBLIGATIONS = [
                   _V + "check_section", _V + "check_source"],
        replay=lambda a: _real("_ob_entity_attrs", a)),
     Ob("tag_consistency", _ob_tag, timeout=900,
-       partition_by_tier={"quick": [(1, 1), (2, 1)], "thorough": [(1, 2), (2, 2)]},
+       partition_by_tier={"quick": [(1, 1), (2, 1)],
+                          "thorough": [(r, (2, k)) for r in (1, 2) for k in range(0, 8)]},
        functions=[_V + "check_tag", _V + "get_dim_units", _V + "tag_units_match_refs_units"],
        replay=lambda a: _real("_ob_tag", a),
        outside="quick: single injections, thorough: pairs; one reference; unit tables"),
     Ob("multi_tag_consistency", _ob_multi_tag, timeout=900,
-       partition_by_tier={"quick": [(1, 1), (2, 1)], "thorough": [(1, 2), (2, 2)]},
+       partition_by_tier={"quick": [(1, 1), (2, 1)],
+                          "thorough": [(r, (2, k)) for r in (1, 2) for k in range(0, 8)]},
        functions=[_V + "check_multi_tag", _V + "get_dim_units", _V + "tag_units_match_refs_units"],
        replay=lambda a: _real("_ob_multi_tag", a)),
 ]
